@@ -325,7 +325,11 @@ class ParseAPI(object):
         if len(data) != 32:
             return None
         se = from_bytes_32(data)
-        return self._network.keys.private(se, is_compressed=is_compressed)
+        try:
+            return self._network.keys.private(se, is_compressed=is_compressed)
+        except ValueError:
+            # the exponent is not in 1..order-1
+            return None
 
     def secret_exponent(self, s: str) -> Any:
         """
